@@ -34,7 +34,7 @@ Proof.
   - destruct (eval en e) as [[w t0]|]; [|discriminate]. destruct (field_of w f); inversion H; subst. eapply IHe; reflexivity.
   - destruct (eval en e) as [[w t0]|]; [|discriminate]. destruct (elem_of w i); inversion H; subst. eapply IHe; reflexivity.
   - destruct (eval en e) as [[w t0]|]; [|discriminate].
-    destruct (ueval (e_caller en) i) as [[k| | | | | | | | | | |]|]; try discriminate.
+    destruct (ueval (e_caller en) i) as [[k| | | | | | | | | | | |]|]; try discriminate.
     destruct (auto_deref w); try discriminate. destruct (Z.ltb k 0); [discriminate|].
     destruct (nth_error vs (Z.to_nat k)); inversion H; subst. rewrite cnt_app. rewrite (IHe w t0 eq_refl). reflexivity.
 Qed.
@@ -178,7 +178,7 @@ Proof.
   - destruct (eval en e) as [[w t0]|]; [|discriminate]. destruct (field_of w f); inversion H; subst. eapply IHe; [exact Hr|reflexivity].
   - destruct (eval en e) as [[w t0]|]; [|discriminate]. destruct (elem_of w i); inversion H; subst. eapply IHe; [exact Hr|reflexivity].
   - destruct (eval en e) as [[w t0]|]; [|discriminate].
-    destruct (ueval (e_caller en) i) as [[k| | | | | | | | | | |]|]; try discriminate.
+    destruct (ueval (e_caller en) i) as [[k| | | | | | | | | | | |]|]; try discriminate.
     destruct (auto_deref w); try discriminate. destruct (Z.ltb k 0); [discriminate|].
     destruct (nth_error vs (Z.to_nat k)); inversion H; subst. rewrite cnt_app. rewrite (IHe w t0 Hr eq_refl). reflexivity.
 Qed.
